@@ -124,4 +124,11 @@ theorem emulatingErrors_expected :
     Generated.emulatingErrorsV2 = ["deprecated=>ErrForcedFailure", "internal_server=>&emulatedInternalServeError", "none=>nil"] := by
   decide
 
+/-- the four registration maps of `interpreter.Native` are keyed by the struct `expressionKey`, whose
+    fields keep the table name and the expression text apart (the model's `nativeKey` encodes that pair) -/
+theorem native_keys_tie :
+    Generated.nativeMapKeyTypes = [("filterExpressions", "expressionKey"), ("keyExpressions", "expressionKey"),
+      ("writeCondExpressions", "expressionKey"), ("updateExpressions", "expressionKey")] ∧
+    Generated.expressionKeyFields = [("tablename", "string"), ("expression", "string")] := by decide
+
 end Minidyn.Tie
